@@ -22,9 +22,11 @@ TICK = 0.25
 NONE = -1
 NOEXP = 9001
 ABSENT = {'st': -9, 'due': NONE, 'sd': 0}
-KINDS = ['counter', 'input', 'timer', 'inputexp', 'fsm', 'td', 'ts']
+KINDS = ['counter', 'input', 'timer', 'inputexp', 'fsm', 'td', 'ts', 'gauge']
 EVENTS = {'counter': ['inc', 'dec', 'reset', 'put'], 'input': ['put'], 'timer': ['start', 'stop', 'toggle'],
-          'inputexp': ['put'], 'fsm': ['e1', 'e2', 'e3'], 'td': ['reconfig'], 'ts': ['reconfig']}
+          'inputexp': ['put'], 'fsm': ['e1', 'e2', 'e3'], 'td': ['reconfig'], 'ts': ['reconfig'],
+          # a block whose state also changes by its own activity (bump), not only in event handlers
+          'gauge': ['put', 'bump', 'bump']}
 # configurations of the TimeDate / TimeSpan blocks: the internal state is the configuration; they are
 # chosen so that the corresponding output does not depend on the time of the (re)start
 TD_MENU = [dict(weekdays='1234567'), dict(weekdays=''), dict(dates='Jan 1 - Dec 31'), dict(times='0:00-0:00'),
@@ -89,6 +91,18 @@ def _mk(edzed, kind, name, probe, **kw):
         return edzed.Timer(name, t_on=3 * TICK, t_off=5 * TICK, **kw)
     if kind == 'inputexp':
         return edzed.InputExp(name, duration=4 * TICK, expired=99, initdef=3, **kw)
+    if kind == 'gauge':
+        class Gauge(edzed.AddonPersistence, edzed.SBlock):
+            def init_regular(self):
+                if not self.is_initialized():       # (called even after a restored state)
+                    self.set_output(1)
+
+            def _event_put(self, *, value, **_data):
+                self.set_output(value)
+
+            def _restore_state(self, state):
+                self.set_output(state)
+        return Gauge(name, **kw)
     if kind == 'td':
         return edzed.TimeDate(name, **TD_MENU[0], **kw)
     if kind == 'ts':
@@ -141,7 +155,7 @@ def _enc(st, kind, wall0, edzed=None):
             import edzed
         menu = _menu_state(edzed, kind)
         return {'st': menu.index(st) + 1 if st in menu else -8, 'due': NONE, 'sd': 0}
-    if kind in ('counter', 'input'):
+    if kind in ('counter', 'input', 'gauge'):
         return {'st': st if isinstance(st, int) and not isinstance(st, bool) else -8, 'due': NONE, 'sd': 0}
     state, exp, sdata = st
     names = {'timer': ['off', 'on'], 'inputexp': ['expired', 'valid'], 'fsm': ['s1', 's2', 's3']}[kind]
@@ -186,7 +200,7 @@ def execute(stim):
         x = (clock.time() - WALL0) / TICK
         return round(x)
 
-    PRE = {'counter': 5, 'input': 4, 'timer': ('off', None, {}), 'inputexp': ('expired', None, {}),
+    PRE = {'counter': 5, 'input': 4, 'gauge': 4, 'timer': ('off', None, {}), 'inputexp': ('expired', None, {}),
            'fsm': ('s1', None, {'n': 1}), 'td': _menu_state(edzed, 'td')[2], 'ts': _menu_state(edzed, 'ts')[1]}
 
     def factory(loop, clock):
@@ -276,6 +290,10 @@ def execute(stim):
                     if circuit.error is not None:
                         break
                     blk = blks[op['b'] - 1]
+                    if op['e'] == 'bump':
+                        blk.set_output(10 + op['v'])        # a new reading: not an event
+                        rec('self', b=op['b'], live=live())
+                        continue
                     flag['driver'] = True
                     try:
                         if op['e'] == 'boom':
